@@ -714,7 +714,11 @@ def find_fn_directive(unit, name):
             if nm:
                 tgt_name = nm[0][1].strip()
             full = d.target
-            if tgt_name == name or d.target.split('::')[-1].strip() == name:
+            norm = lambda t: "::".join(x.strip() for x in t.split("::"))
+            if "::" in name:
+                if norm(d.target).endswith("::" + norm(name)):
+                    return d
+            elif tgt_name == name or d.target.split('::')[-1].strip() == name:
                 return d
     raise ExtractError("assumed contract %s::%s not found" % (unit, name))
 
